@@ -270,7 +270,12 @@ func (c *Ctx) Sample(v interface{}) {
 func (c *Ctx) Result() *Result {
 	c.mu.Lock()
 	defer c.mu.Unlock()
-	r := &Result{Evaluations: c.evals, Counters: c.counters, Sets: map[string][]string{}, Samples: c.samples, Violations: c.viols}
+	r := &Result{Evaluations: c.evals, Counters: map[string]int64{}, Sets: map[string][]string{}}
+	for k, v := range c.counters { // copies: the result is marshalled outside the lock
+		r.Counters[k] = v
+	}
+	r.Samples = append(r.Samples, c.samples...)
+	r.Violations = append(r.Violations, c.viols...)
 	for k := range c.distinct {
 		r.Distinct = append(r.Distinct, k)
 	}
